@@ -550,6 +550,39 @@ def r06g(ctx):
         raise AnalysisError(f"R06g: only {n} type-dispatching reader(s) found")
 
 
+_TIME_FIELDS = {"hour", "minute", "second", "microsecond", "tzinfo", "utcoffset", "time", "timetz", "days", "seconds", "microseconds"}
+
+
+def r06h(ctx):
+    """The lexical form follows the type of the value, not what the value happens to be.
+
+    A datetime is written in date-time form, a date in date form; which one is decided by isinstance.  A choice made on the content —
+    "midnight, so the short form will do" — forgets what the test does not mention: a time-zone-aware datetime at local midnight loses
+    its offset and comes back naive.  Rule: a call of `Date.encode` / `DateTime.encode` / `Duration.encode` is guarded by isinstance tests,
+    None tests and flags only — no guard reads a field of the value (hour, minute, second, microsecond, tzinfo …).
+    """
+    repo = ctx.repo
+    ctx.rule("R06h", "the choice of Date/DateTime/Duration encoder is made on the type of the value, never on its fields", floor=12)
+    n = 0
+    for f in repo.all_funcs():
+        if "/scripts/" in f.file:
+            continue
+        for c in walk_no_nested(f.node):
+            if not (isinstance(c, ast.Call) and isinstance(c.func, ast.Attribute) and c.func.attr == "encode" and isinstance(c.func.value, ast.Name)
+                    and c.func.value.id in ("Date", "DateTime", "Duration")):
+                continue
+            n += 1
+            bad = [t for t, _pol in structural_guards(c, stop=f.node)
+                   if any(isinstance(x, ast.Attribute) and x.attr in _TIME_FIELDS for x in ast.walk(t))]
+            ctx.instance("R06h", f"{f.file}:{f.ident}", f"`{norm(c, 30)}` chosen by type", ok=not bad, nontrivial=bool(bad), line=c.lineno)
+            for t in bad[:1]:
+                ctx.report("R06h", f, c, f"{norm(c, 40)} under `{norm(t, 50)}`",
+                           f"{f.ident} picks the encoder by looking at fields of the value (`{norm(t, 50)}`): values the test does not describe completely — a time-zone-aware datetime "
+                           f"at midnight — are written in a form that drops part of them, and read back as another value")
+    if n < 12:
+        raise AnalysisError(f"R06h: only {n} date/time encoder call(s) found")
+
+
 def r06f(ctx):
     """The number written to office:value is the number that was given.
 
@@ -648,6 +681,11 @@ def run(ctx):
     r06e(ctx)
     r06f(ctx)
     r06g(ctx)
+    r06h(ctx)
+    # a typed string lives in an attribute value: serialising the element must not take anything out of it (rule shared with C12)
+    from ..registry import build_registry
+    from .c12 import r12o
+    r12o(ctx, build_registry(ctx.repo))
     # the lexical forms are produced by the codecs: their exactness is a necessary condition of this property too (rules shared with C18)
     from .c18 import r18a, r18b, r18d
     r18a(ctx)
@@ -659,6 +697,8 @@ from ..selftest import Seed, unparse_seed  # noqa: E402
 
 _ET = "src/odfdo/element_typed.py"
 SEEDS = [
+    Seed("Cell.datetime setter writes the short form at midnight", "fault", "src/odfdo/cell.py", "        dvalue = DateTime.encode(value)\n",
+         "        if value.hour or value.minute or value.second or value.microsecond:\n            dvalue = DateTime.encode(value)\n        else:\n            dvalue = Date.encode(value)\n", "R06h"),
     Seed("metadata reader treats empty text as no value", "fault", "src/odfdo/meta.py",
          "        text = element.text\n        # Interpretation\n", "        text = element.text\n        if not text:\n            return (None, value_type, text)\n        # Interpretation\n", "R06g"),
     Seed("metadata reader guards against a missing text node with is None", "neutral", "src/odfdo/meta.py",
